@@ -108,8 +108,13 @@ def instance_loss(src, n=3, crash=False):
         adapter.set_rules(proc.rules, running_failure_strategy=RFS[strat[name]], start_sequence=1 if inseq[name] else 0,
                           expected_load=10)
         if place[name] is not None:
+            # RUNNING proper, or still STARTING / in BACKOFF there (e.g. an autorestart of its Supervisor): running states
+            how = src.pick(f'running_state_{name}', ['RUNNING', 'STARTING', 'BACKOFF']) if name == 'p0' else 'RUNNING'
             core.process_event(ids[place[name]], 'app', name, PS.STARTING)
-            core.process_event(ids[place[name]], 'app', name, PS.RUNNING)
+            if how == 'RUNNING':
+                core.process_event(ids[place[name]], 'app', name, PS.RUNNING)
+            elif how == 'BACKOFF':
+                core.process_event(ids[place[name]], 'app', name, PS.BACKOFF, expected=False, spawnerr='exited too quickly')
     # a bystander application running on the local instance: never touched
     core.add_process(ids[0], 'other', 'by', PS.STOPPED)
     core.process_event(ids[0], 'other', 'by', PS.RUNNING)
